@@ -26,7 +26,7 @@ F4_FROB = [10, 11, 12, 21, 22, 30, 31, 32]
 
 
 def cases(tier, seed):
-    n = 160 if tier == 'quick' else 4000
+    n = 160 if tier == 'quick' else 8000
     out = []
     for i in range(n):
         out.append(('f4', i))
